@@ -25,6 +25,8 @@ Hypotheses of the block-processor theorems, all of them about parameters:
 import Sqfs.Proofs.BPFinal
 import Sqfs.Proofs.BPSpecPack
 import Sqfs.Proofs.C02Worker
+import Sqfs.Proofs.BPFailRun
+import Sqfs.Witness.C02
 import Sqfs.Props.C09
 import Sqfs.Model.BuildEnv
 namespace Sqfs.C02
@@ -235,6 +237,113 @@ theorem stateful_worker_schedule_dependent :
   have := h 1 [6, 7]
   revert this
   decide
+
+
+/-! ### a failing compressor: determinism of failure
+
+`schedule_independent` assumes that no worker callback fails.  When the compressor fails on a block (`do_block < 0`),
+`process_block` returns the error to the pool, which records it as its status and hands the item back like any other
+(`Sqfs/Model/BlockProcFail.lean`).  The **current** block processor looks at the status only after a failed `submit` or a
+NULL `dequeue`, so a failure can be swallowed, depending on `max_backlog` and on the schedule:
+`Sqfs.Witness.C02.failure_swallowed_current` (replayed on the real code on every run; known finding).  With the
+**repaired** `sync` (it returns the pool status; fixes/C02-report-worker-failure.patch) the failure is reported whatever
+the backlog, worker count and schedule are:
+
+Full statement, proved in two parts (`failure_deterministic_partial`: block processor model on the serial pool, every
+`max_backlog`; `failed_item_back_status_nonzero`: threaded pool, every worker count and schedule):
+
+    theorem failure_deterministic (P fails rc) (n) (beh : behaviour of the threaded pool with `n` workers whose callback returns
+        `workRc fails rc` on the items) (mb files) :
+        (some callback invocation of the run is on an item the compressor fails on) → ∃ e, runV true { failParams P fails rc with ans := behAns beh } mb files = .error e
+
+What is missing for the single statement: the block processor model over an *arbitrary* behaviour of a failing threaded pool
+(the invariant of `Proofs/BP*.lean` is proved for the serial answers; `Sqfs.C09.refines_serial` needs failure-free callbacks).
+The threaded half below is the fact about the pool that the repaired `sync` relies on; the composition is exercised on every
+run (harness/h_c02.c, codec `toyf`, 10 scheduling policies × workers × backlogs: every run must end in an error). -/
+
+/-- the run on a healthy pool in which the blocks the compressor fails on are merely declined (stored uncompressed) — what the
+failing run computes as long as nobody has looked at the pool status -/
+def declined (P : Params) (fails : List UInt8 → Bool) : Params := serial { P with codec := failCodec P.codec fails }
+
+/-- **`failure_deterministic_partial`** (repaired `sync`, serial pool, every `max_backlog`).  If some callback invocation
+of the run is on an item the compressor fails on (`processed`: the items the pool has worked on, `rcOfTable`: the
+callback's return value), the run returns an error — it never returns 0 with an image in which the block is stored
+uncompressed.  (For the current `sync` this is false: `Sqfs.Witness.C02.failure_swallowed_current`.) -/
+theorem failure_deterministic_partial (P : Params) (fails : List UInt8 → Bool) (rc : Int) (mb : Nat) (files : List InFile)
+    (s₀ : Proc) (h₀ : runProcV true (declined P fails) mb files = .ok s₀)
+    (hf : ∃ id ∈ s₀.pool.ser.processed, rcOfTable fails rc s₀.pool.table id ≠ 0) :
+    ∃ e, runV true (failParams P fails rc) mb files = .error e := by
+  have hQ : failParams P fails rc = withAns (declined P fails) (failSerialAns fails rc) := rfl
+  have H : Agrees (declined P fails) (failSerialAns fails rc) (Healthy fails rc) :=
+    ⟨fun p op hg => hg.agree op, fun p b hg => hg.of_submit b, fun p op hg => hg.of_same op⟩
+  have hst : ∀ p, (poolStatus (withAns (declined P fails) (failSerialAns fails rc)) p).2 = 0 → Healthy fails rc p := by
+    intro p hp
+    simp only [poolStatus, failSerialAns_status] at hp
+    exact hp
+  cases hrun : runV true (failParams P fails rc) mb files with
+  | error e => exact ⟨e, rfl⟩
+  | ok out =>
+    exfalso
+    unfold runV at hrun
+    cases hp : runProcV true (failParams P fails rc) mb files with
+    | error e => rw [hp] at hrun; cases hrun
+    | ok s =>
+      rw [hQ] at hp
+      obtain ⟨hg, he⟩ := runProcV_checked_tr H hst (fun p hg => hg.record_status) mb files s hp
+      rw [h₀] at he
+      cases he
+      obtain ⟨id, hid, hne⟩ := hf
+      exact hne (hg.processed id hid)
+
+/-- **`failed_item_back_status_nonzero`** (threaded pool: every worker count, every schedule, spurious wake-ups).  Once an
+item whose callback failed has been handed back by `dequeue`, the pool status is non-zero — and stays so
+(`Sqfs.C09.failure_sticky`), so the `get_status` call at the end of the repaired `sync` reports it
+(`Sqfs.C09.failure_reported_get_status`). -/
+theorem failed_item_back_status_nonzero {cfg : Pool.Cfg} {n : Nat} {s : Pool.State} (hr : Pool.Reachable cfg n s) (t : Nat)
+    (ht : t < s.returned.length) (d : Nat) (hd : s.submitted[t]? = some d) (hrc : cfg.rcOf d ≠ 0) : s.status ≠ 0 := by
+  have hA := Sqfs.C09.inv_reachable hr
+  have hmem : t ∈ s.started.map (·.2.ticket) := by
+    rw [hA.startedPerm.mem_iff]
+    simp only [List.mem_append, List.mem_range]
+    exact Or.inl (Or.inl (Or.inl ht))
+  obtain ⟨p, hp, hpt⟩ := List.mem_map.mp hmem
+  have hdata := hA.startedData p hp
+  rw [hpt, hd] at hdata
+  have hdd : p.2.data = d := (Option.some.inj hdata).symm
+  rcases (Sqfs.C09.failure_recorded hr).2 p hp (by rw [hdd]; exact hrc) with h | h
+  · exact h
+  · exfalso
+    have hnd := (Sqfs.C09.at_most_once hr).2.2
+    rw [hpt] at h
+    -- `t` is among the returned tickets and among the tickets being finished: the ticket list has no duplicates
+    have h1 : t ∈ List.range s.returned.length := List.mem_range.mpr ht
+    simp only [List.append_assoc] at hnd
+    rw [List.nodup_append] at hnd
+    exact hnd.2.2 t h1 t (by simp only [List.mem_append]; exact Or.inr (Or.inr (Or.inl h))) rfl
+
+/-- non-vacuity of `failure_deterministic_partial`: the witness instance (five blocks, the compressor fails on the first),
+`max_backlog` 3 and 40 — the healthy run succeeds, its first callback invocation is on the marked block -/
+example :
+    let R := fun mb => runProcV true (declined { B := 4, codec := Sqfs.ToyCodec.codec 4, h := fun _ => 0 } Sqfs.Witness.C02.marked) mb
+      [Sqfs.Witness.C02.wFile]
+    ∀ mb ∈ [3, 40], ∃ s₀, R mb = .ok s₀ ∧
+      ∃ id ∈ s₀.pool.ser.processed, rcOfTable Sqfs.Witness.C02.marked (-3) s₀.pool.table id ≠ 0 := by
+  intro R
+  have helper : ∀ mb, (R mb).toOption.map (fun s => decide (0 ∈ s.pool.ser.processed) &&
+        decide (rcOfTable Sqfs.Witness.C02.marked (-3) s.pool.table 0 ≠ 0)) = some true →
+      ∃ s₀, R mb = .ok s₀ ∧ ∃ id ∈ s₀.pool.ser.processed, rcOfTable Sqfs.Witness.C02.marked (-3) s₀.pool.table id ≠ 0 := by
+    intro mb h
+    cases hr : R mb with
+    | error e => rw [hr] at h; cases h
+    | ok s₀ =>
+      rw [hr] at h
+      simp only [Except.toOption, Option.map_some, Option.some.injEq, Bool.and_eq_true, decide_eq_true_eq] at h
+      exact ⟨s₀, rfl, 0, h.1, h.2⟩
+  intro mb hmb
+  simp only [List.mem_cons, List.not_mem_nil, or_false] at hmb
+  rcases hmb with rfl | rfl
+  · exact helper 3 (by decide +kernel)
+  · exact helper 40 (by decide +kernel)
 
 /-! ### environment -/
 
